@@ -417,6 +417,116 @@ VARIANTS = [
 
 # Behaviour-preserving edits: every listed check must stay silent (exit 0) on them.  `regex` edits are applied with re.sub.
 BENIGN = [
+    dict(name="getter-via-helper-method", file=SYN, properties=["C04", "C03", "C07", "C10", "C12", "C13", "C16"],
+         edits=[("""    fn input_frames_max(&self) -> usize {
+        div_ceil(self.chunk_size_out, self.fft_size_out) * self.fft_size_in
+    }""", """    fn input_frames_max(&self) -> usize {
+        self.max_blocks() * self.fft_size_in
+    }"""), ("""impl<T> FftFixedIn<T>
+where
+    T: Sample,
+{
+    /// Create a new FftFixedIn.""", """impl<T> FftFixedOut<T>
+where
+    T: Sample,
+{
+    fn max_blocks(&self) -> usize {
+        div_ceil(self.chunk_size_out, self.fft_size_out)
+    }
+}
+
+impl<T> FftFixedIn<T>
+where
+    T: Sample,
+{
+    /// Create a new FftFixedIn.""")]),
+    dict(name="shift-in-helper-method", file=FAST, properties=["C05", "C03", "C08", "C06", "C14", "C18", "C04", "C07", "C11", "C09", "C10"],
+         edits=[("""        for buf in self.buffer.iter_mut() {
+            buf.copy_within(
+                self.current_buffer_fill..self.current_buffer_fill + 2 * POLYNOMIAL_LEN_U,
+                0,
+            );
+        }
+        self.current_buffer_fill = self.needed_input_size;
+""", """        self.keep_history();
+        self.current_buffer_fill = self.needed_input_size;
+"""), ("""impl<T> Resampler<T> for FastFixedOut<T>
+where
+    T: Sample,
+{""", """impl<T> FastFixedOut<T>
+where
+    T: Sample,
+{
+    /// Move the last frames of the previous call to the start of the buffer.
+    fn keep_history(&mut self) {
+        for buf in self.buffer.iter_mut() {
+            buf.copy_within(
+                self.current_buffer_fill..self.current_buffer_fill + 2 * POLYNOMIAL_LEN_U,
+                0,
+            );
+        }
+    }
+}
+
+impl<T> Resampler<T> for FastFixedOut<T>
+where
+    T: Sample,
+{""")]),
+    dict(name="load-loop-filter-form", file=FAST, properties=["C11", "C05", "C03", "C13", "C08", "C18"],
+         edits=[("""        for (chan, active) in self.channel_mask.iter().enumerate() {
+            if *active {
+                self.buffer[chan][2 * POLYNOMIAL_LEN_U..2 * POLYNOMIAL_LEN_U + self.chunk_size]
+                    .copy_from_slice(&wave_in[chan].as_ref()[..self.chunk_size]);
+            }
+        }""", """        for (chan, _) in self.channel_mask.iter().enumerate().filter(|(_, active)| **active) {
+            self.buffer[chan][2 * POLYNOMIAL_LEN_U..2 * POLYNOMIAL_LEN_U + self.chunk_size]
+                .copy_from_slice(&wave_in[chan].as_ref()[..self.chunk_size]);
+        }""")]),
+    dict(name="shift-as-for-each", file=FAST, properties=["C05", "C03", "C08", "C06", "C01", "C14", "C18", "C11", "C09", "C07", "C04"],
+         edits=[("""        for buf in self.buffer.iter_mut() {
+            buf.copy_within(self.chunk_size..self.chunk_size + 2 * POLYNOMIAL_LEN_U, 0);
+        }
+""", """        self.buffer
+            .iter_mut()
+            .for_each(|buf| buf.copy_within(self.chunk_size..self.chunk_size + 2 * POLYNOMIAL_LEN_U, 0));
+""")]),
+    dict(name="shift-range-via-locals", file=FAST, properties=["C05", "C03", "C08", "C06", "C14", "C18"],
+         edits=[("""        for buf in self.buffer.iter_mut() {
+            buf.copy_within(
+                self.current_buffer_fill..self.current_buffer_fill + 2 * POLYNOMIAL_LEN_U,
+                0,
+            );
+        }
+""", """        let keep_from = self.current_buffer_fill;
+        let keep_to = keep_from + 2 * POLYNOMIAL_LEN_U;
+        for buf in self.buffer.iter_mut() {
+            buf.copy_within(keep_from..keep_to, 0);
+        }
+""")]),
+    dict(name="getter-via-local", file=SYN, properties=["C04", "C03", "C07", "C13", "C16", "C12"],
+         edits=[("""    fn input_frames_max(&self) -> usize {
+        div_ceil(self.chunk_size_out, self.fft_size_out) * self.fft_size_in
+    }""", """    fn input_frames_max(&self) -> usize {
+        let blocks = div_ceil(self.chunk_size_out, self.fft_size_out);
+        blocks * self.fft_size_in
+    }""")]),
+    dict(name="validate-args-via-locals", file=SYN, properties=["C13", "C04", "C03", "C11", "C16"],
+         edits=[("""        validate_buffers(
+            wave_in,
+            wave_out,
+            &self.channel_mask,
+            self.nbr_channels,
+            self.chunk_size_in,
+            needed_len,
+        )?;""", """        let channels = self.nbr_channels;
+        validate_buffers(
+            wave_in,
+            wave_out,
+            &self.channel_mask,
+            channels,
+            self.chunk_size_in,
+            needed_len,
+        )?;""")]),
     dict(name="max-via-local-limit", file=SINC, properties=["C04", "C03", "C12"],
          edits=[("""        (self.max_chunk_size as f64 * (self.resample_ratio_original * self.max_relative_ratio)
             + 10.0) as usize""", """        let limit = self.resample_ratio_original * self.max_relative_ratio;
